@@ -111,11 +111,21 @@ class State:
         self.ret = None
         self.globmap = {}   # global name -> rid
         self.extra = {}     # scratch for summaries (copied shallowly)
+        self.owned = set()  # region ids this state may mutate in place (copy-on-write otherwise)
+
+    def wreg(self, rid):
+        """writable view of a region (copy on first write after a fork)"""
+        if rid not in self.owned:
+            self.regions[rid] = self.regions[rid].clone()
+            self.owned.add(rid)
+        return self.regions[rid]
 
     def clone(self):
         s = State.__new__(State)
         s.frames = [f.clone() for f in self.frames]
-        s.regions = {k: r.clone() for k, r in self.regions.items()}
+        s.regions = dict(self.regions)
+        s.owned = set()
+        self.owned = set()
         s.pc = list(self.pc)
         s.pcset = set(self.pcset)
         s.ub = list(self.ub)
@@ -132,6 +142,7 @@ class State:
         rid = self.nrid
         self.nrid += 1
         self.regions[rid] = Region(rid, size, kind, name, const)
+        self.owned.add(rid)
         return rid
 
     def assume(self, c):
@@ -284,7 +295,7 @@ class Executor:
         rid = st.new_region(size, 'global', name, g.constant)
         st.globmap[name] = rid
         if g.init is not None:
-            self.write_const(st, st.regions[rid], 0, g.ty, g.init)
+            self.write_const(st, st.wreg(rid), 0, g.ty, g.init)
         elif not g.external:
             pass
         return Ptr(rid, 0)
@@ -571,6 +582,7 @@ class Executor:
         if reg.const:
             st.ub.append(('store to constant', reg.name))
             return
+        reg = st.wreg(p.region)
         self.clobber(st, reg, p.off, n)
         if val is UNDEF:
             return
@@ -588,19 +600,26 @@ class Executor:
             if o >= off and end <= off + n:
                 del reg.cells[o]
                 continue
-            self.explode(st, reg, o)
+            self.explode(st, reg, o, cuts=[off, off + n])
             for j in range(max(o, off), min(end, off + n)):
                 reg.cells.pop(j, None)
 
-    def explode(self, st, reg, o):
+    def explode(self, st, reg, o, cuts=None):
+        """split the cell at offset o into integer pieces; cuts = byte offsets (absolute) at which to split,
+        default every byte"""
         n, ty, val = reg.cells[o]
         if isinstance(val, (Ptr, FnPtr, Undef, tuple)):
             raise Unsupported('partial overwrite of pointer cell')
         b = self.to_bits(val)
         nb = n if ty != 'f80' else 10
         del reg.cells[o]
-        for j in range(nb):
-            reg.cells[o + j] = (1, 'i8', mk('extract', 'i8', 8 * j + 7, 8 * j, b))
+        if cuts is None:
+            pts = list(range(o, o + nb + 1))
+        else:
+            pts = sorted(set([o, o + nb] + [c for c in cuts if o < c < o + nb]))
+        for a_, b_ in zip(pts, pts[1:]):
+            w = 8 * (b_ - a_)
+            reg.cells[a_] = (b_ - a_, 'i%d' % w, mk('extract', 'i%d' % w, 8 * (b_ - o) - 1, 8 * (a_ - o), b))
 
     def memcpy(self, st, dst, src, n):
         if n == 0:
@@ -612,6 +631,9 @@ class Executor:
         if dreg.const:
             st.ub.append(('store to constant', dreg.name))
             return
+        dreg = st.wreg(dst.region)
+        if src.region == dst.region:
+            sreg = dreg
         moved = []
         for o, c in sreg.cells.items():
             if o >= src.off and o + c[0] <= src.off + n:
@@ -638,6 +660,7 @@ class Executor:
         dreg = self.check_access(st, dst, n, 'memset')
         if dreg is None:
             return
+        dreg = st.wreg(dst.region)
         self.clobber(st, dreg, dst.off, n)
         for j in range(n):
             dreg.cells[dst.off + j] = (1, 'i8', byte)
@@ -713,7 +736,7 @@ class Executor:
     def do_ret(self, st, val):
         fr = st.frames.pop()
         for rid in fr.allocas:
-            st.regions[rid].alive = False
+            st.wreg(rid).alive = False
         if not st.frames:
             st.status = 'ret'
             st.ret = val
